@@ -1,6 +1,7 @@
 package c08
 
 import (
+	"bytes"
 	"fmt"
 	"sort"
 	"time"
@@ -52,6 +53,9 @@ type system struct {
 	clock int64 // harness clock (ns since the Unix epoch): source of arrival and report instants
 	nowNS int64 // what the interceptor's now function returns
 	buf   []byte
+	// the report handed out by the previous build and what it marshalled to then
+	prevRep *rtcp.CCFeedbackReport
+	prevRaw []byte
 }
 
 func newSystem(mode string, starts []int64) (*system, error) {
@@ -157,6 +161,13 @@ func (s *system) apply(o op) (outcome string, fail *failure, skip bool) {
 			if err != nil {
 				return "", failf("report-not-marshalable", "BuildReport(max=%d) returned a report that cannot be marshalled: %v (blocks: %s)", o.Max, err, blockSizes(rep)), false
 			}
+			// the report handed out before this one still says what it said (the caller may keep a report)
+			if s.prevRep != nil {
+				if again, err := s.prevRep.Marshal(); err != nil || !bytes.Equal(again, s.prevRaw) {
+					return "", failf("earlier-report-changed-by-later-build", "the report built before this one marshals differently after BuildReport was called again: err=%v\n was %x\n now %x", err, s.prevRaw, again), false
+				}
+			}
+			s.prevRep, s.prevRaw = rep, append([]byte(nil), raw...)
 			return s.judge(raw, now, o.Max)
 		}
 		if o.Max != icptMaxSize {
